@@ -7,6 +7,7 @@
 //!   batch  <h> <depth> <seed> <idxs|-> <mutation…>
 //!   paths  <h> <depth> <seed> <idxs|-> <mutation…>
 //!   ser    <h> <depth> <seed> <idxs|-> <none|cut k|extra>
+//!   raw    <h> <n> <seed> <ok|short|long>     MerkleTree::from_raw_parts(build_merkle_nodes(leaves) [one node less / more], leaves)
 //!
 //! leaves are derived from the seed (`HX::leaf`), the opening is produced by the real prover, the
 //! mutation is applied to the opening (claimed leaves / nodes / positions / depth / shape), and the
@@ -725,6 +726,85 @@ fn exec_new<H: HX>(t: &[&str]) -> Outcome {
     }
 }
 
+/// the second public constructor on every leaf count (the two refusals must win over the documented panic on a node
+/// vector of another length), and every accessor / opening of the tree it returns against the naive recomputation
+fn exec_raw<H: HX>(t: &[&str]) -> Outcome {
+    let (n, seed) = match (t.first().and_then(|s| s.parse::<usize>().ok()), t.get(1).and_then(|s| Sd::parse(s))) {
+        (Some(n), Some(s)) if n <= 1 << 13 => (n, s),
+        _ => return Outcome::ok("bad-op"),
+    };
+    let mode = match t.get(2) {
+        Some(m) if ["ok", "short", "long"].contains(m) => *m,
+        _ => return Outcome::ok("bad-op"),
+    };
+    let leaves = match leaves_of::<H>(n, &seed) {
+        Some(l) => l,
+        None => return Outcome::ok("bad-op"),
+    };
+    let hn = H::NAME;
+    let valid = n >= 2 && n.is_power_of_two();
+    let mut nodes = if valid { winter_crypto::build_merkle_nodes::<H>(&leaves) } else { vec![H::extra(); n] };
+    match mode {
+        "short" => {
+            nodes.pop();
+        },
+        "long" => nodes.push(H::extra()),
+        _ => {},
+    }
+    let same_len = nodes.len() == n;
+    match guarded(|| MerkleTree::<H>::from_raw_parts(nodes.clone(), leaves.clone())) {
+        Err(info) => {
+            let mut o = Outcome::ok("panic");
+            // documented: panics if nodes doesn't have the same length as leaves (after the two refusals)
+            if !valid || same_len {
+                o = o.fail(format!("{}.from_raw_parts.panic", hn), info);
+            }
+            o
+        },
+        Ok(Err(e)) => {
+            let mut o = Outcome::ok(format!("err:{}", kind(&e)));
+            let exp = if n < 2 {
+                "few-leaves"
+            } else if !n.is_power_of_two() {
+                "not-pow2"
+            } else {
+                "ok"
+            };
+            if kind(&e) != exp {
+                o = o.fail(format!("{}.from_raw_parts.error-kind", hn), format!("got {} expected {}", kind(&e), exp));
+            }
+            o
+        },
+        Ok(Ok(tree)) => {
+            let mut o = Outcome::ok(format!("ok root={} depth={}", H::num(tree.root()), tree.depth()));
+            if !valid || !same_len {
+                return o.fail(format!("{}.from_raw_parts.accepted", hn), format!("{} leaves with {} nodes were accepted", n, nodes.len()));
+            }
+            let levels = naive_levels::<H>(&leaves);
+            let root = *tree.root();
+            if root != naive_root::<H>(&leaves) || tree.leaves() != &leaves[..] || (1usize << tree.depth()) != n {
+                o = o.fail(format!("{}.from_raw_parts.differs", hn), "root() / leaves() / depth() of the tree from raw parts");
+            }
+            let step = (n / 64).max(1);
+            for i in (0..n).step_by(step) {
+                match guarded(|| tree.prove(i)) {
+                    Ok(Ok(p)) if p == naive_path::<H>(&levels, i) && matches!(guarded(|| MerkleTree::<H>::verify(root, i, &p)), Ok(Ok(()))) => {},
+                    _ => {
+                        o = o.fail(format!("{}.from_raw_parts.prove", hn), format!("prove({}) on the tree from raw parts", i));
+                        break;
+                    },
+                }
+            }
+            let idxs: Vec<usize> = (0..n).step_by(step.max(n / 8).max(1)).chain([n - 1]).collect::<BTreeSet<usize>>().into_iter().collect();
+            match guarded(|| tree.prove_batch(&idxs)) {
+                Ok(Ok(p)) if matches!(guarded(|| MerkleTree::<H>::verify_batch(&root, &idxs, &p)), Ok(Ok(()))) => {},
+                _ => o = o.fail(format!("{}.from_raw_parts.prove_batch", hn), "prove_batch / verify_batch on the tree from raw parts"),
+            }
+            o
+        },
+    }
+}
+
 fn head(t: &[&str]) -> Option<(u32, Sd)> {
     let d = t.first()?.parse::<u32>().ok()?;
     let s = Sd::parse(t.get(1)?)?;
@@ -1371,6 +1451,7 @@ fn exec_tree<H: HX>(t: &[&str]) -> Outcome {
 fn exec_h<H: HX>(op: &str, t: &[&str]) -> Outcome {
     match op {
         "new" => exec_new::<H>(t),
+        "raw" => exec_raw::<H>(t),
         "single" => exec_single::<H>(t),
         "batch" => exec_batch::<H>(t),
         "paths" => exec_paths::<H>(t),
@@ -1429,6 +1510,17 @@ impl P {
             for n in [31usize, 32, 33, 64, 100, 128, 256, 1000, 1024, 2048, 4096] {
                 if h == "toy" || h.starts_with("blake") || n <= 256 {
                     emit(format!("new {} {} {}", h, n, 3));
+                }
+            }
+            // the other public constructor on the same leaf counts, with a node vector of the right and of a wrong length
+            for n in 0..=18usize {
+                for mode in ["ok", "short", "long"] {
+                    emit(format!("raw {} {} {} {}", h, n, 1 + n as u64, mode));
+                }
+            }
+            for n in [31usize, 32, 33, 64, 100, 128, 256, 1024] {
+                if h == "toy" || h.starts_with("blake") || n <= 128 {
+                    emit(format!("raw {} {} 3 ok", h, n));
                 }
             }
         }
